@@ -11,7 +11,7 @@ pub fn movie_json(m: &LMovie) -> Value {
     json!({"timescale": m.timescale, "mdat_first": m.mdat_first, "placement": m.placement,
         "tracks": m.tracks.iter().map(|t| json!({"id": t.id, "codec": format!("{:?}", t.codec), "timescale": t.timescale, "chunks": t.chunks,
             "samples": t.samples.iter().map(|s| json!([s.size, s.delta, s.cts, s.sync])).collect::<Vec<_>>(),
-            "stsc_split": t.stsc_split, "stts_split": t.stts_split, "ctts_split": t.ctts_split, "co64": t.co64, "const_size": t.const_size, "ctts": t.ctts, "stss": t.stss})).collect::<Vec<_>>()})
+            "stsc_split": t.stsc_split, "stts_split": t.stts_split, "ctts_split": t.ctts_split, "co64": t.co64, "const_size": t.const_size, "ctts": t.ctts, "stss": t.stss, "stbl_order": t.stbl_order})).collect::<Vec<_>>()})
 }
 
 /// Compare every lookup of the library with the expectations derived from the logical movie.
@@ -127,6 +127,53 @@ pub fn judge(prop: &str, family: &str, m: &LMovie, l: &mut Local) {
     }
     if l.samples.is_empty() && total == 3 {
         l.samples.push(json!({"family": family, "movie": movie_json(m)}));
+    }
+}
+
+/// Tables whose sizes exceed any materialisable file: only sample_count and sample_offset are compared (the mdat is empty).
+pub fn judge_offsets(prop: &str, family: &str, m: &LMovie, l: &mut Local) {
+    l.evaluations += 1;
+    let (bytes, a) = crate::refmp4::tree::serialize(&nodes_opt(m, false));
+    let pos = a["mdat"].1;
+    let case = || json!({"engine": "shape", "family": family, "movie": movie_json(m), "input_hex": hex(&bytes), "extra": "offsets only: the sample payloads are not materialised"});
+    let mut r = match open(&bytes) {
+        Ok(r) => r,
+        Err(e) => {
+            l.outcome("open_failed");
+            l.violations.push(Violation::new(prop, "consistent_file_does_not_open", case()).obs(json!(e)));
+            return;
+        }
+    };
+    l.validated += 1;
+    let exp = expectations_opt(m, false);
+    let mut ok = true;
+    for (t, e) in m.tracks.iter().zip(exp.iter()) {
+        l.transitions += 1;
+        if !matches!(guard(|| r.sample_count(t.id)), Ok(Ok(c)) if c == e.len() as u32) {
+            ok = false;
+            l.violations.push(Violation::new(prop, "sample_count", case()).exp(json!({"track": t.id, "count": e.len()})));
+            continue;
+        }
+        for (k, x) in e.iter().enumerate() {
+            l.transitions += 1;
+            let want = pos + x.rel_offset;
+            match guard(|| r.sample_offset(t.id, k as u32 + 1)) {
+                Ok(Ok(o)) if o == want => {}
+                o => {
+                    ok = false;
+                    l.violations.push(Violation::new(prop, "sample_offset", case()).obs(json!({"track": t.id, "sample": k + 1, "got": format!("{:?}", o.map(|r| r.map_err(|e| e.to_string())))})).exp(json!(want)));
+                    break;
+                }
+            }
+        }
+    }
+    if ok {
+        l.outcome(&format!("ok:{}", family));
+        if m.tracks.iter().any(|t| t.samples.len() >= 2) {
+            l.nontrivial += 1;
+        }
+    } else {
+        l.outcome("VIOLATION");
     }
 }
 
@@ -422,6 +469,58 @@ pub fn run(tier: Tier, seed: u64) -> i32 {
         }
     }
     fams.push(json!({"family": "G:5x5 sample-entry kinds", "files": 25}));
+
+    // (I) the same tables with the children of stbl in other orders and with uninterpreted boxes among them
+    let ni = if th { 4 } else { 3 };
+    let mut ci = 0u64;
+    for n in 1..=ni {
+        let mut items = vec![];
+        for comp in compositions(n) {
+            for order in 1u8..=4 {
+                for ctts in [None, Some(0u8), Some(1u8)] {
+                    for sy in std::iter::once(None).chain((0..(1u32 << n)).map(Some)) {
+                        items.push((comp.clone(), order, ctts, sy));
+                    }
+                }
+            }
+        }
+        ci += items.len() as u64 * 2;
+        par(items, &mut l, |(comp, order, ctts, sy), l| {
+            for co64 in [false, true] {
+                let samples: Vec<LSample> = (0..n).map(|i| LSample { size: 1 + i as u32, delta: 5 + i as u32, cts: if i % 2 == 1 { -3 } else { 4 }, sync: sy.map(|m| (m >> i) & 1 == 1).unwrap_or(true) }).collect();
+                let mut t = LTrack::simple(1, Codec::Avc, 1000, samples, comp.clone());
+                t.ctts = *ctts;
+                t.stss = sy.is_some();
+                t.co64 = co64;
+                t.stbl_order = *order;
+                judge("C03", "I:stbl_child_orders", &LMovie::new(1000, vec![t]), l);
+            }
+        });
+    }
+    fams.push(json!({"family": "I:children of stbl in 4 other orders (optional tables last after an uninterpreted box, reversed, optional first, uninterpreted boxes everywhere) x chunking x offsets version x sync subsets", "n_max": ni, "files": ci}));
+
+    // (J) sizes whose running sums pass 2^32 inside a chunk: offsets only
+    let nj = if th { 6 } else { 4 };
+    let mut cj = 0u64;
+    for n in 1..=nj {
+        let mut items = vec![];
+        for comp in compositions(n) {
+            for sizes in vectors(&[0x9000_0000u32, 1, u32::MAX], n) {
+                items.push((comp.clone(), sizes));
+            }
+        }
+        cj += items.len() as u64 * 2;
+        par(items, &mut l, |(comp, sizes), l| {
+            for co64 in [false, true] {
+                let samples: Vec<LSample> = (0..n).map(|i| LSample { size: sizes[i], delta: 1, cts: 0, sync: true }).collect();
+                let mut t = LTrack::simple(1, Codec::Aac, 1000, samples, comp.clone());
+                // 32-bit chunk offsets can only address chunks that start below 4 GiB: with stco keep everything in one chunk
+                t.co64 = co64 || comp.len() > 1;
+                judge_offsets("C03", "J:sizes_summing_past_4GiB", &LMovie::new(1000, vec![t]), l);
+            }
+        });
+    }
+    fams.push(json!({"family": "J:sample sizes in {0x90000000, 1, 0xffffffff}^N, every chunking: sample_count and sample_offset only (payload not materialised)", "n_max": nj, "files": cj}));
 
     // (H) real files: the independent decoder (refmp4::parse) reads the canned files' tables, evaluates the lookup
     // semantics on them, and every sample is compared with what the library returns.  This binds the reference
